@@ -1,5 +1,6 @@
 """Uninterpreted and recursive spec functions."""
 import z3
+import os
 from .sym import I, B, Val, scalar, sort_of, fresh_name, pathstr, OutOfSubset, EngineError, MATHINT
 from . import ops
 from .state import State, Heap
@@ -92,11 +93,21 @@ class RecSpecs:
             return Val(rt, {(): d[0](*args)})
         f, keys, sorts = d
         hargs = []
-        fp = getattr(self, 'footprints', {}).get((sf.pkg, sf.name), {})
-        for key in keys:
-            h = ev.st.heap.get(key, sorts[key], ev.st.alloc0)
-            if key in fp:
-                h = self.peel(h, [args[n] for n in fp[key]])
+        fp, fformals, fregions = getattr(self, 'footprints', {}).get((sf.pkg, sf.name), ({}, [], []))
+        actual = [ev.st.heap.get(key, sorts[key], ev.st.alloc0) for key in keys]
+        subs = None
+        for n, key in enumerate(keys):
+            h = actual[n]
+            if key in fp and len(fformals) == len(args):
+                if subs is None:
+                    subs = list(zip(fformals, args)) + list(zip(fregions, actual))
+                if not fp[key]:
+                    h = fregions[n]      # any one term: the value does not depend on this region
+                else:
+                    try:
+                        h = self.peel(h, [z3.substitute(b, *subs) for b in fp[key]])
+                    except z3.Z3Exception:
+                        pass
             hargs.append(h)
         term = self.apply_lifted(f, args, hargs)
         if not ev.quant and not getattr(ev, 'nounfold', False):
@@ -120,6 +131,35 @@ class RecSpecs:
                     return z3.If(h.arg(0), self.apply_lifted(f, args, a, depth + 1), self.apply_lifted(f, args, b, depth + 1))
         return f(*(args + hargs))
 
+    def different(self, a, b):
+        """do the assumptions of the current path exclude a == b? (the order solver first, then
+        the quantifier-free mirror of the path with a short time limit)"""
+        sv = self.cx.solver
+        if sv.provably_different(a, b):
+            return True
+        key = (a.get_id(), b.get_id(), len(sv.qf.assertions()))
+        memo = self.__dict__.setdefault('_diff_memo', {})
+        if key in memo:
+            return memo[key]
+        q = sv.qf
+        q.push()
+        try:
+            q.add(a == b)
+            q.set('timeout', int(os.environ.get('VCGEN_DIFF_MS', '100')))
+            rr = q.check()
+            r = rr == z3.unsat
+            if os.environ.get('VCGEN_TRACE_PATHS') and not r:
+                import sys
+                print('DIFF-CHECK', rr, [x.sexpr()[:150] for x in q.assertions() if 'ref_append' in x.sexpr() or 'Attributesb' in x.sexpr()][:12], file=sys.stderr)
+        finally:
+            q.pop()
+            q.set('timeout', sv._branch_ms)
+        memo[key] = r
+        import sys
+        if not r and os.environ.get('VCGEN_TRACE_PATHS'):
+            print('NOT-DIFFERENT', a.sexpr()[:200], '|', b.sexpr()[:200], file=sys.stderr)
+        return r
+
     def peel(self, h, bases, depth=0):
         """the region term without the writes to rows other than those of `bases` (the function
         applied reads only these rows, so its value is the same on both)"""
@@ -127,7 +167,7 @@ class RecSpecs:
             return h
         if z3.is_store(h):
             i = h.arg(1)
-            if all(self.cx.solver.provably_different(i, b) for b in bases):
+            if all(self.different(i, b) for b in bases):
                 return self.peel(h.arg(0), bases, depth + 1)
             return h
         if z3.is_app(h) and h.decl().kind() == z3.Z3_OP_ITE:
@@ -176,15 +216,21 @@ class RecSpecs:
         hs.sink = None
         hs.subcache = {}
         sub = Ev(cx, hs, dict(fenv), sf.pkg, None, sf.imports, None, True)
-        self.defs[k] = (lambda *a: z3.FreshConst(rsort, 'ph'), heap1.keys, heap1.sorts, True)
+        rec_calls = []
+
+        def placeholder(*a):
+            rec_calls.append(list(a))
+            return z3.FreshConst(rsort, 'ph')
+        self.defs[k] = (placeholder, heap1.keys, heap1.sorts, True)
         try:
             bodyv = sub.ev(sf.body)
         finally:
             del self.defs[k]
         keys = list(heap1.keys)
         sorts = dict(heap1.sorts)
-        # footprint: a region read only through rows whose base is a parameter leaf (the elements
-        # of a slice parameter) lets an application ignore writes to other allocations
+        # footprint: a region that the body reads only through rows select(R, base), where the base
+        # terms do not depend on R and depend on parameters that every recursive call passes on
+        # unchanged, lets an application ignore writes to rows of other bases
         self.footprints = getattr(self, 'footprints', {})
         fp = {}
         try:
@@ -193,12 +239,47 @@ class RecSpecs:
             bt = None
         if bt is not None:
             fidx = {c.get_id(): n for n, c in enumerate(formals)}
+
+            def mentions(t, ids, memo):
+                """does term t contain a constant whose id is in ids (or a bound variable)?"""
+                stack = [t]
+                seen = set()
+                while stack:
+                    x = stack.pop()
+                    if x.get_id() in seen:
+                        continue
+                    seen.add(x.get_id())
+                    if z3.is_var(x) or z3.is_quantifier(x):
+                        return True
+                    if x.get_id() in ids:
+                        return True
+                    if z3.is_app(x):
+                        stack.extend(x.children())
+                return False
+
+            def formals_in(t):
+                out = set()
+                stack = [t]
+                seen = set()
+                while stack:
+                    x = stack.pop()
+                    if x.get_id() in seen:
+                        continue
+                    seen.add(x.get_id())
+                    if x.get_id() in fidx:
+                        out.add(fidx[x.get_id()])
+                    if z3.is_app(x):
+                        stack.extend(x.children())
+                return out
             for key in keys:
                 R = heap1.r[key]
+                rid = {R.get_id()}
                 ok = True
-                used = set()
+                bases = []
                 seen = set()
                 stack = [bt] + list(hs.assumptions)
+                for call in rec_calls:
+                    stack.extend(call)
                 while stack and ok:
                     t = stack.pop()
                     if t.get_id() in seen:
@@ -214,15 +295,21 @@ class RecSpecs:
                         break
                     if z3.is_select(t) and t.arg(0).eq(R):
                         b = t.arg(1)
-                        if b.get_id() in fidx:
-                            used.add(fidx[b.get_id()])
-                            continue
-                        ok = False
-                        break
+                        if mentions(b, rid, None):
+                            ok = False
+                            break
+                        for n in formals_in(b):
+                            for call in rec_calls:
+                                if n >= len(call) or not call[n].eq(formals[n]):
+                                    ok = False
+                        if all(not b.eq(x) for x in bases):
+                            bases.append(b)
+                        stack.append(b)
+                        continue
                     stack.extend(t.children())
-                if ok and used:
-                    fp[key] = sorted(used)
-        self.footprints[k] = fp
+                if ok:
+                    fp[key] = bases     # no base at all: the region is not read (only named by a whole-struct load)
+        self.footprints[k] = (fp, formals, [heap1.r[key] for key in keys])
         f = ops.uf('spec_%s_%s' % (sf.pkg.rsplit('/', 1)[-1], sf.name),
                    *(list(argsorts) + [z3.ArraySort(I, sort_of(sorts[key])) for key in keys] + [rsort]))
         d = (f, keys, sorts)
